@@ -81,6 +81,17 @@ CHECKS["C03"] = (
     "DESIGN.md section 3 / C03",
 )
 
+CHECKS["C14"] = (
+    "Hypothesis trees + short scenarios (twins, detach) around duplicate/replace vs position-wise and metamorphic (rebuild) oracles",
+    "Seeded Hypothesis search over trees and scenarios (0-2 registered twins, subject detached before or after, "
+    "single- and two-field changes of every kind); duplicate is checked position by position for equality, "
+    "newness, registration and id freshness; both replace flavours for field identity; ASTNode.replace "
+    "metamorphically against a fresh construction from the same field objects, and for keeping the original's "
+    "id; no other registered node may be evicted. Bounded exploration.",
+    "Trusts Hypothesis and the case's own bookkeeping of which nodes are registered.",
+    "DESIGN.md section 3 / C14",
+)
+
 NOT_YET = "check not built yet in this snapshot (see DESIGN.md section 9 build order); nothing is claimed"
 
 
